@@ -11,9 +11,9 @@ def configs(tier):
         ('initial parse, 2 events, 2 attribute slots', dict(n=2, attrs=2)),
     ]
     if tier == 'quick': return q
-    return q + [('initial parse, 4 events, 1 attribute slot', dict(n=4, attrs=1)), ('extension, 3 events, 2 attribute slots', dict(n=3, attrs=2, extend=True)), ('initial parse, 3 events, 2 attribute slots', dict(n=3, attrs=2)),
-               ('initial parse, 5 events, 1 attribute slot', dict(n=5, attrs=1)), ('extension, 4 events, 1 attribute slot', dict(n=4, attrs=1, extend=True)),
-                ('initial parse, 6 events, no attributes', dict(n=6, attrs=0))]
+    return q + [('initial parse, 4 events, 1 attribute slot', dict(n=4, attrs=1)), ('extension, 3 events, 2 attribute slots', dict(n=3, attrs=2, extend=True)),
+                ('initial parse, 3 events, 2 attribute slots', dict(n=3, attrs=2)), ('extension, 4 events, 1 attribute slot', dict(n=4, attrs=1, extend=True)),
+                ('initial parse, 5 events, no attributes', dict(n=5, attrs=0))]
 
 def native_cross_check(c, n):
     """native only: the verdict of the real parser on mutated byte strings equals the independent pass over the REAL event stream (ties the event model to bytes)"""
@@ -43,7 +43,7 @@ def main():
     ]
     if c.setup():
         for label, kw in configs(c.tier):
-            c.run(label, 'rsym.he', 'ErrorFaithful', kw, required_witnesses=('Ok', 'Err:QuickXmlError', 'Err:FromUtf8Error') + (('Err:AttrError',) if kw.get('attrs') else ()), time_cap=200 if c.tier == 'quick' else 3000)
+            c.run(label, 'rsym.he', 'ErrorFaithful', kw, required_witnesses=('Ok', 'Err:QuickXmlError', 'Err:FromUtf8Error') + (('Err:AttrError',) if kw.get('attrs') else ()), time_cap=200 if c.tier == 'quick' else 900)
         native_cross_check(c, 300 if c.tier == 'quick' else 3000)
     c.finish(bounds={'scripts': [l for l, _ in configs(c.tier)]}, outside=['scripts longer than the bound', 'bytes -> events (quick_xml)'],
              trusted=['rsym + reader event model', 'z3', 'tools/replay'],
